@@ -39,3 +39,46 @@ Proof.
     + right. exists [53]. split; [reflexivity|]. split; [discriminate | repeat constructor].
   - split; [repeat constructor; unfold scalar; lia | split; exact I].
 Qed.
+
+(* ---- TileJSON documents through containers: merge into the default document, narrowing to the coverage ---- *)
+From VT Require Import Model.Http Model.TileJson Proofs.TileJsonProofs.
+Lemma C17_gen_merge_variant : tj_merge_variant = 1.  Proof. reflexivity. Qed.
+
+(* the tar and directory readers merge the stored document into TileJSON::default(): the result is
+   the stored document - bounds, center, zoom range and every other value *)
+Theorem C17_merge_into_default : forall d, keys_unique (t_vals d) -> m_get k_tilejson (t_vals d) <> None ->
+  t_bounds (merge tj_merge_variant tj_default d) = t_bounds d /\ t_center (merge tj_merge_variant tj_default d) = t_center d /\
+  get_byte k_minzoom (t_vals (merge tj_merge_variant tj_default d)) = get_byte k_minzoom (t_vals d) /\
+  get_byte k_maxzoom (t_vals (merge tj_merge_variant tj_default d)) = get_byte k_maxzoom (t_vals d) /\
+  forall k, is_zoom k = false -> m_get k (t_vals (merge tj_merge_variant tj_default d)) = m_get k (t_vals d).
+Proof. exact merge_into_default. Qed.
+Print Assumptions C17_merge_into_default.
+
+Theorem C17_merge_into_default_refuted_with_zero_default :
+  get_byte k_minzoom (t_vals (merge 0 tj_default (mkTJ None None [(k_tilejson, TString [51%N]); (k_minzoom, TByte 3)]))) = Some 0%N.
+Proof. exact merge_into_default_refuted_v0. Qed.
+
+(* merging two documents (overlay / merged sources): other keys of the second win, the zoom range is the union *)
+Theorem C17_merge_keys : forall a b k, is_zoom k = false -> keys_unique (t_vals b) ->
+  m_get k (t_vals (merge tj_merge_variant a b)) = match m_get k (t_vals b) with Some x => Some x | None => m_get k (t_vals a) end.
+Proof. exact (merge_other_keys tj_merge_variant). Qed.
+Print Assumptions C17_merge_keys.
+
+Theorem C17_merge_zoom : forall a b,
+  get_byte k_minzoom (t_vals (merge tj_merge_variant a b)) =
+    match get_byte k_minzoom (t_vals b), get_byte k_minzoom (t_vals a) with Some o, Some s => Some (N.min s o) | Some o, None => Some o | None, r => r end /\
+  get_byte k_maxzoom (t_vals (merge tj_merge_variant a b)) =
+    match get_byte k_maxzoom (t_vals b), get_byte k_maxzoom (t_vals a) with Some o, Some s => Some (N.max s o) | Some o, None => Some o | None, r => r end.
+Proof. intros a b. split; [exact (merge_minzoom a b) | exact (merge_maxzoom tj_merge_variant a b)]. Qed.
+Print Assumptions C17_merge_zoom.
+
+(* update_from_pyramid: zoom range and bounds are intersected with the coverage's, nothing else changes *)
+Theorem C17_narrowed_to_coverage : forall cb zmin zmax a,
+  let r := update_from_pyramid cb zmin zmax a in
+  t_center r = t_center a /\
+  t_bounds r = match cb with Some b => Some (match t_bounds a with Some sb => bb_intersect sb b | None => b end) | None => t_bounds a end /\
+  get_byte k_minzoom (t_vals r) = match zmin with Some z => Some (match get_byte k_minzoom (t_vals a) with Some m => N.max m z | None => z end) | None => get_byte k_minzoom (t_vals a) end /\
+  get_byte k_maxzoom (t_vals r) = match zmax with Some z => Some (match get_byte k_maxzoom (t_vals a) with Some m => N.min m z | None => z end) | None => get_byte k_maxzoom (t_vals a) end /\
+  forall k, is_zoom k = false -> m_get k (t_vals r) = m_get k (t_vals a).
+Proof. exact update_from_pyramid_spec. Qed.
+Print Assumptions C17_narrowed_to_coverage.
